@@ -108,6 +108,14 @@ class Observers(Monitor):
                     src_kinds |= self.kinds.get(i, set())
             for e in out.new_entries:
                 self.kinds[world.pool.index(e)] = src_kinds | {op['op']}
+            # every vessel is looked at once as soon as it exists: whatever it is derived from has been looked at the
+            # same way, so an answer that travels with a copy instead of being computed from the contents shows
+            for e in out.new_entries:
+                if e.kind in ('c', 'p'):
+                    idx = world.pool.index(e)
+                    self.observe(world, {'op': 'observe', 'obj': {'i': idx}, 'observer': 'get_substances'})
+                    if e.kind == 'c':
+                        self.observe(world, {'op': 'observe', 'obj': {'i': idx}, 'observer': 'volume'})
             return
         self.observe(world, op)
 
